@@ -137,7 +137,21 @@ Definition pop_reference (s : wstate) : wres reference :=
 
 Definition ref_string (r : reference) : list N := join_with 46 (map lit r).
 
-(* popValue *)
+(* popValue: the element loop of an array, over the recursive value parser [pv] *)
+Fixpoint pop_elems (pv : wstate -> wres value) (fuel2 : nat) (opener : token) (acc : list value)
+                   (s : wstate) : wres value :=
+  match fuel2 with
+  | O => WFuel
+  | S f2 =>
+    wbind (pv s) (fun v s2 =>
+      let acc' := acc ++ [v] in
+      if tt_eqb (next_type s2) COMMA then
+        wbind (pop_token s2) (fun _ s3 => pop_elems pv f2 opener acc' s3)
+      else if tt_eqb (next_type s2) RBRACK then
+        wbind (pop_token s2) (fun _ s3 => WOk (VArr acc' (tstart opener) (current_pos s3)) s3)
+      else wbind (pop_token s2) (fun t s3 => WErr t s3))
+  end.
+
 Fixpoint pop_value (fuel : nat) (s : wstate) : wres value :=
   match fuel with
   | O => WFuel
@@ -151,19 +165,7 @@ Fixpoint pop_value (fuel : nat) (s : wstate) : wres value :=
       wbind (pop_token s) (fun opener s1 =>
         if tt_eqb (next_type s1) RBRACK then
           wbind (pop_token s1) (fun _ s2 => WOk (VArr [] (tstart opener) (current_pos s2)) s2)
-        else
-          (fix elems (fuel2 : nat) (acc : list value) (s : wstate) : wres value :=
-             match fuel2 with
-             | O => WFuel
-             | S f2 =>
-               wbind (pop_value f s) (fun v s2 =>
-                 let acc' := acc ++ [v] in
-                 if tt_eqb (next_type s2) COMMA then
-                   wbind (pop_token s2) (fun _ s3 => elems f2 acc' s3)
-                 else if tt_eqb (next_type s2) RBRACK then
-                   wbind (pop_token s2) (fun _ s3 => WOk (VArr acc' (tstart opener) (current_pos s3)) s3)
-                 else wbind (pop_token s2) (fun t s3 => WErr t s3))
-             end) (S (length (wrest s1))) [] s1)
+        else pop_elems (pop_value f) (S (length (wrest s1))) opener [] s1)
     else wbind (pop_token s) (fun t s1 => WErr t s1)
   end.
 Definition pop_value_top (s : wstate) : wres value := pop_value (S (length (wrest s))) s.
